@@ -55,6 +55,7 @@ func cmdRun(argv []string) {
 	verbose := fs.Bool("v", false, "print violations in detail")
 	fixed := fs.String("fix", "", "comma separated nondet values: run one concrete path")
 	fs.BoolVar(&spec.NoMerge, "nomerge", false, "disable merged evaluation of pure functions")
+	fs.BoolVar(&spec.PoolReuse, "poolreuse", false, "sync.Pool hands back what was put (default: always New)")
 	fs.Parse(argv)
 	if *harness != "" {
 		spec.Harness = strings.Split(*harness, ",")
